@@ -219,6 +219,11 @@ void
 nni_msgq_aio_put(nni_msgq *mq, nni_aio *aio)
 {
 	nni_mtx_lock(&mq->mq_lock);
+	if (mq->mq_closed) {
+		nni_mtx_unlock(&mq->mq_lock);
+		nni_aio_finish_error(aio, NNG_ECLOSED);
+		return;
+	}
 
 	// If this is an instantaneous poll operation, and the queue has
 	// no room, nobody is waiting to receive, then report NNG_ETIMEDOUT.
@@ -242,6 +247,11 @@ void
 nni_msgq_aio_get(nni_msgq *mq, nni_aio *aio)
 {
 	nni_mtx_lock(&mq->mq_lock);
+	if (mq->mq_closed) {
+		nni_mtx_unlock(&mq->mq_lock);
+		nni_aio_finish_error(aio, NNG_ECLOSED);
+		return;
+	}
 	// Only start the aio (which applies the timeout) when nothing can be
 	// handed over right away; a zero-timeout poll must still get data
 	// that is already there.
